@@ -148,6 +148,9 @@ def adapter_for(case):
 
 # ----------------------------------------------------------------- one real search with observations
 EQLOG = [None]
+# calls the REST of the program (the searcher's own has_specification(): connect_cycles, set_verified) makes on the
+# equivalence database between two adds: the environment's move for the model's is_verified (RuleDB/Run.v envA/envB)
+ENVLOG = [None]
 
 
 def _eq_class():
@@ -159,8 +162,11 @@ def _eq_class():
         _depth = 0
 
         def _outer(self, rec, fn, *a):
-            if self._depth == 0 and EQLOG[0] is not None:
-                EQLOG[0].append(rec)
+            if self._depth == 0:
+                if EQLOG[0] is not None:
+                    EQLOG[0].append(rec)
+                elif ENVLOG[0] is not None:
+                    ENVLOG[0].append(rec)
             self._depth += 1
             try:
                 return fn(*a)
@@ -175,6 +181,9 @@ def _eq_class():
 
         def add_one_way_edge(self, a, b):
             return self._outer([6, 0, a, b], super().add_one_way_edge, a, b)
+
+        def connect_cycles(self):
+            return self._outer([7], super().connect_cycles)
 
     return LogEq
 
@@ -322,8 +331,16 @@ def _run_one(case, which, ad, queries_in=None):
         step["empties_after"] = [-1 if e is None else int(bool(e)) for e in cdb.empty_list]
         saved = copy.deepcopy(ruledb.equivdb)
         EQLOG[0] = None
+        env_saved, ENVLOG[0] = ENVLOG[0], None      # observations are rolled back: not the environment's calls
         try:
-            step["verified"] = [int(bool(ruledb.is_verified(l))) for l in range(nlab)]
+            ver_now = [int(bool(ruledb.is_verified(l))) for l in range(nlab)]
+            if "verified" in step:
+                # the last step observed AGAIN after the search went on (live has_specification() calls since the add):
+                # "verified" stays what it was right after the insertion (compared with the model), the later answers
+                # are compared between the two databases by the oracle
+                step["verified_last"] = ver_now
+            else:
+                step["verified"] = ver_now
             if full:
                 step["has_spec"] = int(bool(ruledb.has_specification()))
                 step["reps"] = [ruledb.equivdb[l] for l in range(nlab)]
@@ -331,6 +348,7 @@ def _run_one(case, which, ad, queries_in=None):
         finally:
             ruledb.equivdb = saved
             ruledb._pruned_dict = None
+            ENVLOG[0] = env_saved
         if full:
             qs = None
             if queries_in is not None and len(queries_in) > len(steps):
@@ -365,6 +383,9 @@ def _run_one(case, which, ad, queries_in=None):
             "add": [start_label, list(ends), ad.sid(rule.strategy), ad.cls(rule.comb_class), kind],
             "pre": [len(cdb.comb_class_list), [-1 if e is None else int(bool(e)) for e in cdb.empty_list]],
         }
+        # what the rest of the program did to the equivalence database since the previous add (nothing for a fresh one)
+        step["eqenv"] = [] if flags["reset"] else [list(c) for c in (ENVLOG[0] or []) if c[0] in (5, 7)]
+        ENVLOG[0] = None
         del stops[:]
         EQLOG[0] = eqlog = []
         in_add[0] = 1
@@ -375,6 +396,7 @@ def _run_one(case, which, ad, queries_in=None):
             EQLOG[0] = None
         step["eq"] = eqlog
         step["stops"] = list(stops)
+        ENVLOG[0] = []
         state["nadds"] += 1
         n = state["nadds"]
         full = 1 if (n % stride == 0 or n <= 2) else 0
@@ -385,6 +407,7 @@ def _run_one(case, which, ad, queries_in=None):
         steps.append(step)
 
     ruledb.add = add
+    ENVLOG[0] = []
     css, status, exc = None, 0, None
 
     def one_packet():
@@ -441,6 +464,7 @@ def _run_one(case, which, ad, queries_in=None):
         observe(observe_last, True)
         steps.append(observe_last)
     final = {}
+    ENVLOG[0] = None
     # the logged rules fed again, in another order and with repetitions, to a FRESH database of the same kind
     # attached to the same (finished) searcher: "fed the same sequence of rules" beyond what one search produces
     if case.get("shuffle") and css is not None and status == 0 and len(logged) >= 2:
@@ -546,7 +570,7 @@ def _universe_of(case, res):
 
 def encode_with(case, res):
     if "pair" not in res:
-        return [[0, 0, 0], [], [], [], [], []]
+        return [[0, 0, 0, 1], [], [], [], [], []]
     a, b = res["pair"]
     empty, strats, order, _ = _universe_of(case, res)
     steps = []
@@ -557,8 +581,10 @@ def encode_with(case, res):
         full = int(bool(sb.get("full") and sa.get("full")))
         steps.append([sb["pre"][0], sb["pre"][1], sb["add"], full,
                       sa.get("queries", []) if full else [],
-                      sa.get("reps", []) if full else [], sb.get("reps", []) if full else [], int(sb.get("reset", 0))])
-    enc = [[a["root"], a["iterative"], int(FALLBACK_ALL_LABELS)], empty, strats, order, b["classes"], steps]
+                      sa.get("reps", []) if full else [], sb.get("reps", []) if full else [], int(sb.get("reset", 0)),
+                      sa.get("eqenv", []), sb.get("eqenv", [])])
+    # 4th header flag: is_verified of every label after every insertion is part of the compared output
+    enc = [[a["root"], a["iterative"], int(FALLBACK_ALL_LABELS), 1], empty, strats, order, b["classes"], steps]
     hu = _hyp_universe(case, res)
     if hu is not None:
         # 7th field: what the deciders of Searcher/Deciders.v need beyond the table the databases are modelled on
@@ -593,13 +619,23 @@ def _hyp_bits(case, res):
     return hyps.bits(hu, res["pair"][0].get("packets", []))
 
 
+def _covers(case, res):
+    from harness.props import c04
+
+    hu = _hyp_universe(case, res)
+    order = set(_universe_of(case, res)[2])
+    need = list(c04.queue_pack(hu)) + list(hu["pack"]["ver"]) + list(hu["pack"]["sym"])
+    return int(all(q in order for q in need))
+
+
 def _out_of(a, b):
     out = []
     for i, sa in enumerate(a["steps"]):
         if i >= len(b["steps"]):
             break
         sb = b["steps"][i]
-        row = [0, sa["keys_r"], sa["keys_e"], sb["keys_r"], sb["keys_e"], sa["eq"], sa["stops"], sa["empties_after"]]
+        row = [0, sa["keys_r"], sa["keys_e"], sb["keys_r"], sb["keys_e"], sa["eq"], sa["stops"], sa["empties_after"],
+               [sa["verified"], sb["verified"]]]
         if sa.get("full") and sb.get("full"):
             def look(keys, ga, gb):
                 return [[k, x[1] if x[0] == 0 else -2, x[2], y[0], y[2]] for k, x, y in zip(keys, ga, gb)]
@@ -639,7 +675,11 @@ def impl(case):
         if hb is not None:
             # compared by the core with the element the extracted run_c14 appends (deciders of Searcher/Deciders.v)
             res["hyp"] = hb
-            res["out"] = res["out"] + [hb]
+            # ... and by the element after it: fpack_coversb (RuleDB/Model.v), the pack hypothesis of
+            # C14_search_stored_rules_handed_back_x_decided: the pack order the memory-saving database replays contains
+            # the strategies the queue hands out, the verification strategies and the symmetries
+            res["covers"] = _covers(case, res)
+            res["out"] = res["out"] + [hb] + [res["covers"]]
         return res
     finally:
         ad.close()
@@ -798,6 +838,9 @@ def _failures(case, res):
                 return
         if sa["verified"] != sb["verified"]:
             yield "%s: is_verified differs: RuleDB %r, RuleDBForgetStrategy %r" % (where, sa["verified"], sb["verified"])
+        if sa.get("verified_last") != sb.get("verified_last"):
+            yield "%s: is_verified at the end of the search differs: RuleDB %r, RuleDBForgetStrategy %r" % (
+                where, sa.get("verified_last"), sb.get("verified_last"))
             return
         if sa["eq"] != sb["eq"] or sa["stops"] != sb["stops"] or sa["empties_after"] != sb["empties_after"]:
             yield "%s: the two databases did different things to the equivalence database / queue / class database" % where
@@ -1061,12 +1104,17 @@ def extra_checks(ctx):
     res = []
     tot = len(ctx.cases)
     nins = nfull = nlook = nfail = nalloc = nfill = nother = ncont = 0
+    nver = nverlab = nenv = nenvdiff = 0
     for r, _, _ in ctx.impl_res:
         if "pair" not in r:
             continue
         a, b = r["pair"]
         nins += len(a["steps"])
         for sa, sb in zip(a["steps"], b["steps"]):
+            nver += 1 in sa["verified"]
+            nverlab += sum(sa["verified"])
+            nenv += len(sa.get("eqenv", []))
+            nenvdiff += sa.get("eqenv", []) != sb.get("eqenv", [])
             if sa.get("full"):
                 nfull += 1
                 ncont += len(sa.get("contains", []))
@@ -1079,8 +1127,28 @@ def extra_checks(ctx):
     res.append(("insertions compared (key sets, is_verified, equivalence/queue/class database calls) / compared in full "
                 "(has_specification, contains, every stored key looked up in both databases)", nins > 0 or tot < 5,
                 "%d / %d in %d searches; %d contains queries; %d lookups" % (nins, nfull, tot, ncont, nlook)))
+    res.append(("is_verified of every label after every insertion: computed by the model (C06 model of the equivalence "
+                "database fed with the calls of add and the calls of the searcher's own has_specification()) and compared",
+                nver > 0 or tot < 50,
+                "%d insertions after which some label is verified (%d verified answers in all); %d calls of the rest of the "
+                "program on the equivalence databases (connect_cycles / set_verified of live has_specification()) fed to "
+                "the model as the environment's move; at %d insertions the two databases had received them in a "
+                "different order" % (nver, nverlab, nenv, nenvdiff)))
     from harness.props import hyps
 
+    xflags = [bool(r["hyp"][0]) and bool(r.get("covers")) for c, (r, _, _) in zip(ctx.cases, ctx.impl_res)
+              if r.get("hyp") and c["kind"] == "table"]
+    xwflags = [bool(r["hyp"][0]) and bool(r.get("covers")) for c, (r, _, _) in zip(ctx.cases, ctx.impl_res)
+               if r.get("hyp") and c["kind"] != "table"]
+    ncov0 = sum(1 for r, _, _ in ctx.impl_res if r.get("hyp") and not r.get("covers"))
+    res.append(hyps.coverage_check(
+        "C14_search_stored_rules_handed_back_x", xflags, MIN_COVERED, "table-universe searches",
+        "the theorem about the code AS IT IS (every rule the searcher stored, foreign parents included, is handed back); "
+        "verdict = search_hyps_b && fpack_coversb of the extracted run_c14 (both part of the compared output); "
+        "fpack_coversb false on %d cases" % ncov0))
+    res.append(hyps.coverage_check(
+        "C14_search_stored_rules_handed_back_x", xwflags, MIN_COVERED_WORDS, "word-universe searches (tabulated)",
+        "as above, on the tabulation"))
     flags, why_not, npk = [], {}, 0
     wflags, wwhy, wpk = [], {}, 0
     for case, (r, _, _) in zip(ctx.cases, ctx.impl_res):
@@ -1111,7 +1179,8 @@ def extra_checks(ctx):
         "verification / symmetry lists and the %d packets the real queue handed out, equal to the Python predicates on "
         "every case" % (wwhy or "-", wpk)))
     res.append(("information: RecomputingDict lookups", True,
-                "%d could not recompute (recorded limitation, foreign parents); %d handed back another strategy than the "
+                "%d could not recompute (since fix 59cdf67 only where the cached emptiness changed between storing and "
+                "looking up: universes breaking the contracts); %d handed back another strategy than the "
                 "stored one (both reproduce the rule); %d gave a NEW label to a class the searcher never saw, %d filled the "
                 "emptiness cache (side effects on the class database, rolled back by the harness)" % (nfail, nother, nalloc, nfill)))
     return res
@@ -1122,7 +1191,7 @@ RULE = (
     "lazy ready rules and foreign parents, verification rules with children, symmetries, inferral chains, self-"
     "equivalences; strong / weak / wild emptiness regimes; 12% iterative packs), searched to queue exhaustion packet by "
     "packet or by do_level, expand_verified on/off, classes compressed or not, has_specification() also asked for real "
-    "every 1 or 3 packets in some cases; 30% word universes (the repository's example classes; the 14 packs of "
+    "every 1 or 3 packets in some cases; 30% word universes (the repository's example classes; the 18 packs of "
     "words_ext plus 10 packs of words_c14 whose verification strategies apply to classes other strategies also expand: "
     "non-atom verification with ExpansionStrategy as initial strategy, prefix-length verification, with symmetries, "
     "inferral, factories yielding rules with a foreign parent, one-way equivalences, iterative), random start classes, "
@@ -1139,8 +1208,9 @@ RULE = (
 )
 TECHNIQUE = ("Coq proof over an executable store-generic model of the two databases (induction over arbitrary histories) + "
              "extracted-model/implementation correspondence on real searches (stored keys, equivalence-database and queue "
-             "calls, emptiness cache after every insertion; has_specification / contains / lookups at sampled insertions); "
-             "the table hypotheses of the composed theorem C14_search_stored_rules_handed_back are decided per "
+             "calls, emptiness cache and is_verified of every label after every insertion; has_specification / contains / "
+             "lookups at sampled insertions); "
+             "the table hypotheses of the composed theorems C14_search_stored_rules_handed_back(_x) are decided per "
              "table-universe case by an extracted decider (verdict compared with the harness's predicates on every such "
              "case; covered fraction reported and enforced)")
 TRUSTED = [
@@ -1148,9 +1218,13 @@ TRUSTED = [
     "rule_db/forget.py (RecomputingDict: _flatten/_unflatten, __getitem__, __setitem__, __delitem__, __contains__, "
     "__iter__) - hand-written Gallina model RuleDB/Model.v over the strategy table of Searcher/Model.v and the class "
     "database model of C15, tied by this correspondence",
-    "the equivalence database is a shared component: the model records the calls add makes on it; is_verified is "
-    "compared between the two real databases by the oracle; has_specification is computed by the model from the stored "
-    "keys with the representatives equivdb[label] replayed from the real run (Tree/Model.v, the C05 model)",
+    "the equivalence database is a shared component: the model records the calls add makes on it; is_verified of every "
+    "label after every insertion is COMPUTED by the model - the C06 model of EquivalenceDB (Equiv/Model.v) fed with those "
+    "calls and with the calls the searcher's own has_specification() made in between (connect_cycles / set_verified, "
+    "logged from the real run: the environment's move) - and compared for both databases, besides the oracle's "
+    "comparison of the two real databases; has_specification is computed by the model from the stored "
+    "keys with the representatives equivdb[label] replayed from the real run (Tree/Model.v, the C05 model; "
+    "C14_same_has_specification_real_classes instantiates them with C06's representative function)",
     "the harness rolls back the side effects observations have on the search: has_specification()/is_verified() are "
     "asked on the real database and the equivalence database is restored afterwards; every lookup in the memory-saving "
     "database is followed by a restore of the class database (a lookup can fill the emptiness cache and even give a new "
@@ -1165,8 +1239,11 @@ ASSUMPTIONS = [
     "has no empty child on a non-empty class, nor on an empty one if its rules go through add_rule; symmetries preserve "
     "emptiness) and whose symmetry rules are unary: otherwise the cached emptiness "
     "of a class can change between storing and looking up, in both databases alike",
-    "C14_search_stored_rules_handed_back additionally assumes that no factory item names a verification strategy "
-    "(twoway_faithful) and covers own-parent rules only (a factory rule with a foreign parent: the known finding)",
+    "C14_search_stored_rules_handed_back_x (the code as it is) additionally assumes that no factory item names a "
+    "verification strategy (twoway_faithful) and that the pack the memory-saving database replays contains the "
+    "strategies the searcher applies itself (queue pack, verification strategies, symmetries: fpack_coversb, decided "
+    "in-run, true by construction of StrategyPack.__iter__); it has NO own-parent restriction. The theorems without "
+    "_x are about the code before fix 59cdf67 (own-parent rules only)",
     "the table hypotheses of C14_search_stored_rules_handed_back (pe_contract, sym_contract, sym_unary, items_plain => "
     "twoway_faithful) and packets_in are DECIDED on every table-universe case: the extracted run_c14 evaluates "
     "search_hyps_b (Searcher/Deciders.v, sound by search_hyps_sound; C14_search_stored_rules_handed_back_decided "
@@ -1198,7 +1275,9 @@ LEVEL_TEXT = (
     "Theorems C14_* (coq/theories/Props/C14.v, all closed under the global context) over RuleDB/Model.v: ONE database "
     "(RuleDBBase.add, _clean_labels, contains, __iter__) generic in its two stores, instantiated with dicts (RuleDB) and "
     "with RecomputingDict (RuleDBForgetStrategy; __getitem__ replays EmptyStrategy and the pack on the classes of the "
-    "key) over any strategy table and the C15 class-database model. C14_same_keys_same_answers: for EVERY history of "
+    "key and then - since fix 59cdf67 - on every other labelled class: rec_getitem_x T (other_labels d k), THE CODE AS "
+    "IT IS and the function the extracted model runs; theorems about it carry the suffix _x) over any strategy table "
+    "and the C15 class-database model. C14_same_keys_same_answers: for EVERY history of "
     "add calls (any labels, any rule), direct store assignments/deletions and arbitrary changes of the class database "
     "in between, after every event both databases hold the same keys in both stores, made - inside add - the same calls "
     "on the equivalence database and on the queue (has_specification() itself issues further set_verified calls in "
@@ -1206,41 +1285,69 @@ LEVEL_TEXT = (
     "exception status, answer every membership query alike, and has_specification (the C05 model of "
     "rules_up_to_equivalence + prune/iterative_prune) is the same for every representative function and every order "
     "in which the memory-saving SET is iterated; C14_has_specification_marks_same_labels: it marks the same set of "
-    "labels verified. C14_contains: contains(start, ends) <-> (start, sorted(ends)) is a stored key, both databases, "
-    "every pair. C14_recompute_reproduces: whatever RecomputingDict.__getitem__ hands back, re-applied to the class "
-    "labelled key[0], is filed under the key again (two-way for the equivalence store); C14_recompute_succeeds: it hands "
-    "a strategy back whenever some strategy of the pack produces such a rule on a class of the key; "
-    "C14_recompute_outcomes: KeyError iff the key is not stored, RuntimeError only if no strategy of the pack produces "
-    "the rule on a class of the key, never another exception; C14_lookup_side_effects: a lookup only extends the class "
-    "database and keeps labels and is_empty answers of known classes. C14_dict_add_reproduces / "
-    "C14_stored_rule_is_handed_back: add called under add_pre (start = label of the rule's parent, ends = labels of ALL "
+    "labels verified; C14_same_has_specification_real_classes: the free representative function instantiated - the "
+    "two equivalence databases, fed the same calls by add (and whatever the rest of the program adds in the same way, "
+    "e.g. connect_cycles()), are in the SAME state s of the C06 model, equivdb[l] is C06's repf s (equal exactly for "
+    "labels of one class: C06_representative_function), so same has_specification / same marked labels is about the "
+    "real equivalence classes, and is_verified is one function of that state (C06_verified); "
+    "C14_has_specification_leaves_same_is_verified: has_specification() then hands the keys of the two pruned "
+    "dictionaries (same key set) to set_verified in DIFFERENT orders (dict vs set iteration) - the two resulting states "
+    "answer is_verified alike for every label (RuleDB/VerifiedOrder.v: set_verified never changes the partition, a label "
+    "is verified iff some label of its class was marked). "
+    "C14_contains: contains(start, ends) <-> (start, sorted(ends)) is a stored key, both databases, "
+    "every pair. THE LOOKUP AS IT IS (C14_all_labels_replayed: the replayed labels are ALL labels of the class "
+    "database): C14_recompute_reproduces_x: whatever RecomputingDict.__getitem__ hands back, re-applied to the class "
+    "labelled key[0], is filed under the key again (two-way for the equivalence store) and comes from a pack strategy "
+    "applied to some labelled class; C14_recompute_succeeds_x: it hands a strategy back whenever some strategy of the "
+    "pack (or the empty strategy) produces such a rule on ANY labelled class; C14_recompute_outcomes_x: KeyError iff "
+    "the key is not stored (any key, nothing touched), RuntimeError only if NO strategy of the pack produces the rule "
+    "on ANY labelled class, never another exception; C14_lookup_side_effects_x: a lookup only extends the class "
+    "database and keeps labels and is_empty answers of known classes; C14_fix_keeps_old_answers: whatever the lookup "
+    "before 59cdf67 handed back the present one hands back. C14_dict_add_reproduces / "
+    "C14_stored_rule_is_handed_back_x: add called under add_pre (start = label of the rule's parent, ends = labels of ALL "
     "its children in the class database at call time) files the rule under "
     "the key its own strategy reproduces; the dict returns that strategy; the memory-saving database hands back a "
     "reproducing strategy right after the insertion and in every later state that kept labels and is_empty answers, if "
-    "a pack strategy produces the rule on its own parent class; C14_truthful_caches_keep_answers + "
+    "a pack strategy produces the rule on SOME class labelled at insertion time (no own-parent restriction: factory "
+    "rules with a foreign parent are covered). [Kept, about the code BEFORE 59cdf67 (rec_getitem, classes of the key "
+    "only): C14_recompute_reproduces / _succeeds / _outcomes, C14_lookup_side_effects, C14_stored_rule_is_handed_back "
+    "(own parent class only), C14_search_stored_rules_handed_back(_decided) (own-parent rules only), and the historic "
+    "witness C14_every_stored_rule_handed_back_refuted (the foreign-parent instance: RuntimeError before the fix, "
+    "strategy 0 handed back by the code as it is); C14_repair_reproduces / C14_repair_hands_back: the same for EVERY "
+    "list of extra labels.] C14_truthful_caches_keep_answers + "
     "C14_search_states_keep_answers: any two PACKET-BOUNDARY states of a search (C04 searcher model, tables honouring the "
     "two strategy contracts of Searcher/Contracts.v - restated, the former pair was contradictory when a symmetry has "
-    "an entry on an empty class -, packets of pack strategies) are such states; C14_search_stored_rules_handed_back "
-    "(composition with C04 through RuleDB/SearchHist.v, C04_search_gives_add_hist): for EVERY ruledb.add event of EVERY "
-    "run of the searcher model on a pruning database - also one made in the middle of a packet - add_pre held at call "
-    "time and, in the state the run is in now, RuleDBForgetStrategy hands back a reproducing strategy for the key of "
-    "that call from any store still holding it, if a pack strategy produces the rule on its own parent (extra table "
-    "hypotheses: symmetry rules are unary, no factory item names a verification strategy); "
-    "C14_search_stored_rules_handed_back_decided: the same with ALL table hypotheses and packets_in replaced by "
-    "search_hyps_b T pack ps = true (Searcher/Deciders.v), the boolean the extracted run_c14 evaluates on every "
-    "table-universe case (table of the case, packets of the real queue; compared with the plugin's Python verdict by "
-    "the core's diff) - the composed theorem covers exactly the cases where it is true: " + F14 + " of the "
+    "an entry on an empty class -, packets of pack strategies) are such states; C14_search_stored_rules_handed_back_x "
+    "(composition with C04 through RuleDB/SearchHist.v: search_gives_add_hist_prov = C04_search_gives_add_hist plus the "
+    "PROVENANCE of every recorded rule, now carried by the invariant of the searcher model - Searcher/ProofsCore.v prov, "
+    "Searcher/Proofs.v used: the rule object came from a strategy the queue handed out, a verification strategy or a "
+    "symmetry, applied to a class labelled at that time): for EVERY ruledb.add event of EVERY "
+    "run of the searcher model on a pruning database (mode 0 = the DictStore searcher model; by "
+    "C14_same_keys_same_answers the memory-saving database holds the same keys) - also one made in the middle of a "
+    "packet, also a factory rule with a FOREIGN parent - add_pre held at call "
+    "time and, in the state the run is in now (whole packets done, or where it died / ran out of fuel), the lookup of "
+    "the code as it is hands back a reproducing strategy for the key of "
+    "that call from any store still holding it (C14_search_own_stores_handed_back_x: in particular from the store the "
+    "run itself holds); hypotheses: the contracts, symmetry rules are unary, no factory item names a verification "
+    "strategy, and the replayed pack contains the queue pack, the verification strategies and the symmetries - NO "
+    "own-parent hypothesis, no hypothesis on where the rule came from; "
+    "C14_search_stored_rules_handed_back_x_decided: the same with ALL hypotheses replaced by "
+    "search_hyps_b T pack ps = true (Searcher/Deciders.v) and fpack_coversb T pack fpack = true (RuleDB/Model.v), the "
+    "booleans the extracted run_c14 evaluates on every "
+    "table-universe case (table of the case, packets of the real queue, pack order of the real StrategyPack; compared "
+    "with the plugin's Python verdicts by "
+    "the core's diff) - the composed theorem covers exactly the cases where both are true: " + F14 + " of the "
     "table-universe searches (tags thm:C14_search_stored_rules_handed_back:*, extra check covered_by_theorem) and " + F14W +
     " of the word-universe searches (evaluated on their tabulation with the real pack; the rest fail clause (b) of "
     "pe_contract on labelled empty classes the search never expands); "
     "C14_searcher_model_uses_dict_store: one ruledb.add of the C04 searcher model and of this model do "
     "the same to class database and key sets (the one-step lemma the composition iterates). "
-    "C14_every_stored_rule_handed_back_refuted: the unconditional statement is FALSE (rule "
-    "with a foreign parent produced by a factory on another class: open known finding, repro in findings/); "
-    "C14_repair_reproduces / C14_repair_hands_back: with the proposed repair (replay on all other labels afterwards) every "
-    "rule produced on any labelled class is handed back. The model is tied to rule_db/base.py and rule_db/forget.py by "
+    "The model is tied to rule_db/base.py and rule_db/forget.py by "
     "running real searches twice (RuleDB / RuleDBForgetStrategy) and comparing with the extracted model: after EVERY "
-    "insertion the key sets of both stores in both databases, equivalence-database/queue calls and the emptiness cache; "
+    "insertion the key sets of both stores in both databases, equivalence-database/queue calls, the emptiness cache and "
+    "is_verified of EVERY label in both databases (computed by the model: the C06 model of the equivalence database fed "
+    "with the calls of add and with the connect_cycles / set_verified calls the searcher's own has_specification() made "
+    "in between, taken from the real run as the environment's move); "
     "at SAMPLED insertions only (every insertion in 35% of the quick cases, else every 2nd-5th + first two + last) "
     "has_specification, contains queries and every stored key looked up in both databases with the strategy "
     "re-applied; an independent Python oracle checks the property statement on the two real databases - reproduction "
@@ -1248,24 +1355,31 @@ LEVEL_TEXT = (
     "the same bits the extracted deciders print for the case) - for word universes reproduction is demanded whatever "
     "the verdict of their tabulation (only pe_contract clause (b) ever fails there, on applications the search never "
     "makes) - and "
-    "non-empty parents; in a case where the known finding is hit, nothing after the first hit is examined by the oracle."
+    "non-empty parents. No finding of C14 is open (forget-foreign-parent-outside-key was fixed by 59cdf67; the model "
+    "follows the fixed code)."
 )
 LEVEL_NOTE = (
     "Trusted: Coq kernel, extraction + OCaml driver, the harness (logging wrappers, rollback of observation side effects, "
     "tabulation of word universes; the harness reads ClassDB's three lists and RuleDBBase.equivdb/_pruned_dict to take and "
     "restore snapshots). Modelled not verified: base.py / forget.py (tied by the correspondence). The "
-    "equivalence database is not re-modelled here: the theorems say both databases make the SAME calls on it and that "
-    "has_specification marks the same SET of labels; that set_verified calls arriving in a different order leave the same "
-    "observable state is C06's component and is checked here on the real databases only (is_verified compared after "
-    "has_specification()). Histories of theorem 1 contain add, store assignment/deletion and class-database changes; "
+    "equivalence database is C06's model (Equiv/Model.v), composed here: the theorems say both databases make the SAME "
+    "calls on it, hence are in the same state of that model (C14_same_has_specification_real_classes), and that "
+    "has_specification marks the same SET of labels; the run computes is_verified after every insertion from that model. "
+    "That the set_verified calls has_specification() itself issues, arriving in a different order in the "
+    "two databases (dict vs set iteration), leave the same observable state is "
+    "C14_has_specification_leaves_same_is_verified (over the C06 op history; has_specification() is not a step of the "
+    "gen_run histories of theorem 1); the run additionally checks each real database against the model "
+    "fed with that database's own call order. "
+    "Histories of theorem 1 contain add, store assignment/deletion and class-database changes; "
     "MutableMapping.pop on RecomputingDict (= lookup, then delete; no longer used by the library since e80f5df) is "
     "compared on the real stores by the oracle only. The reproduction theorems need labels and is_empty answers to be "
     "stable between storing and looking up (pres): proved for searches on tables honouring the contracts of "
     "Searcher/Contracts.v (a possibly_empty=False strategy has no empty child on a non-empty class, nor on an empty one "
     "if its rules go through add_rule; symmetries preserve emptiness); the oracle demands "
     "reproduction only for such universes and for non-empty parent classes, as the property says. The model follows the "
-    "code AS IT IS (open finding forget-foreign-parent-outside-key is printed as KNOWN-FINDING); with the proposed "
-    "repair applied set FALLBACK_ALL_LABELS (the model has both behaviours: rec_getitem_x). Which of several reproducing "
+    "code AS IT IS since fix 59cdf67 (fallback = 1: rec_getitem_x T (other_labels d k); VERIF_C14_FALLBACK=0 runs the "
+    "model of the code before the fix, which the theorems without _x describe). Reverting 59cdf67 is reported "
+    "(RuntimeError of the forget database on foreign-parent keys: oracle failure and model mismatch). Which of several reproducing "
     "strategies RecomputingDict returns, and its side effects on the class database (new labels for foreign parents, "
     "emptiness cache: C14_lookup_side_effects), are modelled but deliberately NOT compared with the code (a harmless "
     "reordering of the replay would change them); the evidence only counts how often they occur."
